@@ -84,7 +84,7 @@ PROPS = {
                 rule="one generated logical record (JSON-expressible) for a generated struct schema (tags json/form/query/env/zog) is sent through zjson, zhttp JSON/form/query requests (methods, charset parameters, decoy query/body values, malformed bodies, middleware pre-parsing) or the environment; model input = what encoding/json, url.ParseQuery or TrimSpace yield when called directly; plus a model-free cross-front-end oracle against the same record as a Go map; distinct = distinct (front end, schema shape, issue codes)",
                 families=[dict(name="fe", family="fe", profile="fe", quick=1500, thorough=20000,
                                tags=["nil", "issues", "dest", "panic", "fe_equiv", "fe_nested_flat", "nested_source_tag", "nested_flat_source"])]),
-    "C15": dict(theorems=["C15_get_head_query", "C15_other_methods", "C15_json_iff", "C15_form_iff", "C15_params_ignored", "C15_decode_failure_struct",
+    "C15": dict(theorems=["C15_get_head_query", "C15_other_methods", "C15_json_iff", "C15_form_iff", "C15_media_type_every_spelling", "C15_media_type_only_spellings", "C15_legacy_dispatch_refuted", "C15_params_ignored", "C15_decode_failure_struct",
                           "C15_decode_failure_ptr", "C15_empty_object", "C15_url_missing", "C15_url_single", "C15_url_repeated", "C15_url_brackets"],
                 cone=["Model/Http.v", "Proofs/HttpP.v", "Model/Engine.v"],
                 rule="method x Content-Type grid (standard, unknown and lower-case methods; parameters, empty, malformed and random media types) with the dispatch observed through recording Config.Parsers; query strings x keys for urlDataProvider.Get; non-trivial = a non-GET/HEAD request or a present/repeated parameter; distinct = distinct (method, content type) or (query, key)",
